@@ -87,6 +87,10 @@ def frame(B, cfg, T_, variant):
     if variant.get('int_ids'):
         labels = [int(x) for x in labels]
     dosing = cfg['model'] == 'pk'
+    obs_names = OBS_NAMES
+    if cfg.get('trivial_map'):
+        # observables named like the model outputs: no map needs to be given
+        obs_names = user_model(B, cfg).outputs()
     per = []
     for i, tr in enumerate(T_):
         rows = []
@@ -110,13 +114,16 @@ def frame(B, cfg, T_, variant):
                 row(Time=t, Dose=d)
             elif k == 'X':        # no time: not a dose event
                 row(Dose=d, Duration=u)
-        for o, ms in enumerate(tr['meas']):
+        meas = list(enumerate(tr['meas']))
+        if variant.get('outputs_reversed'):
+            meas = meas[::-1]     # rows of the last output come first
+        for o, ms in meas:
             for j, (t, v) in enumerate(ms):
-                row(Time=t, Observable=OBS_NAMES[o], Value=v)
+                row(Time=t, Observable=obs_names[o], Value=v)
                 if variant.get('missing') and j == 0:
                     # a measurement without value and one without time
-                    row(Time=t + 0.125, Observable=OBS_NAMES[o])
-                    row(Observable=OBS_NAMES[o],
+                    row(Time=t + 0.125, Observable=obs_names[o])
+                    row(Observable=obs_names[o],
                         Value=B.var('lost%d_%d' % (i, o)))
         if variant.get('junk'):
             row(Time=1.0, Observable='Unrelated', Value=B.var('junk%d' % i))
@@ -242,7 +249,9 @@ def case_posterior(B, cfg):
         pop_ref = hier.make_population(units, n_ids, cfg.get('bare', False))
     kw = {}
     # (the default map applies to one output and one observable only)
-    if cfg.get('explicit_map', False) or cfg['n_out'] > 1 or \
+    if cfg.get('trivial_map'):
+        pass
+    elif cfg.get('explicit_map', False) or cfg['n_out'] > 1 or \
             variant.get('junk') or cfg.get('n_cov', 0):
         outs = user_model(B, cfg).outputs()
         pairs = [(o, OBS_NAMES[k]) for k, o in enumerate(outs)]
@@ -506,6 +515,23 @@ def jobs(tier):
     out.append(('posterior', 'case_posterior', dict(
         model='sym', n_out=2, ems=['Gaussian', 'Multiplicative'], n_ids=2,
         ids=['b', 'a'], empty_first_output=True, variant={}), FACADE))
+    # observables named like the outputs and no map given (documented
+    # default: each output is measured by the observable of its name)
+    for v in ({}, {'outputs_reversed': True},
+              {'outputs_reversed': True, 'order': 'interleaved', 'junk': True},
+              {'outputs_reversed': True, 'order': 'reversed rows',
+               'missing': True}):
+        out.append(('posterior', 'case_posterior', dict(
+            model='sym', n_out=2, ems=['Gaussian', 'LogNormal'], n_ids=2,
+            ids=['b', 'a'], trivial_map=True, variant=v), FACADE))
+        out.append(('posterior', 'case_posterior', dict(
+            model='sym', n_out=2, ems=['Gaussian', 'LogNormal'], n_ids=3,
+            ids=ids3, trivial_map=True,
+            units=[U('gaussian'), U('pooled'), U('lognormal')], variant=v),
+            FACADE))
+    out.append(('posterior', 'case_posterior', dict(
+        model='sym', n_out=1, ems=['Gaussian'], n_ids=2, ids=['b', 'a'],
+        trivial_map=True, variant={'junk': True}), FACADE))
     for v in ({}, {'order': 'interleaved', 'junk': True}):
         out.append(('posterior', 'case_posterior', dict(
             model='sym', n_out=2, ems=['Gaussian', 'LogNormal'], n_ids=2,
@@ -584,7 +610,8 @@ BOUNDS = dict(
           'string or integer IDs that do not sort like their order of '
           'appearance; row labels of the frame reversed / rotated / with gaps '
           '/ strings / duplicated; the output-observable map in reversed key '
-          'order; the '
+          'order, or no map and observables named like the outputs (their '
+          'rows in another order than the outputs); the '
           'covariates as a separate block of rows in another ID order); '
           'replicate measurements (the same reading twice, two readings at '
           'one time); dosed model with 3 sets of per-individual dose rows '
